@@ -278,6 +278,9 @@ func (o *Obligation) Text(solver string) string {
 		return nullRe.ReplaceAllString(t, "${1}0${2}")
 	}
 	b.WriteString(fix(body))
+	for _, l := range stringLemmas(body + g + " " + goal) {
+		b.WriteString(l + "\n")
+	}
 	if g != "true" {
 		b.WriteString("(assert " + fix(g) + ")\n")
 	}
